@@ -560,8 +560,11 @@ namespace photon
 
     public:
         void foreground_lock() {
-            // lock
-            foreground_locked.store(true, std::memory_order_release);
+            // lock. The store must be ordered before the following load of
+            // background_locked (Dekker): with a release store the load may be
+            // satisfied while the store still sits in the store buffer (even
+            // on x86), and both sides would enter at the same time.
+            foreground_locked.store(true, std::memory_order_seq_cst);
 
             // wait if (unlikely) background locked
             wait_while(background_locked);
@@ -572,11 +575,11 @@ namespace photon
                 wait_while(foreground_locked);
 
                 // try lock
-                if (background_locked.exchange(true, std::memory_order_acquire))
+                if (background_locked.exchange(true, std::memory_order_seq_cst))
                     return false;   // avoid wait while holding the lock
 
                 // check to make sure it is still unlocked
-                if (likely(!foreground_locked.load(std::memory_order_acquire)))
+                if (likely(!foreground_locked.load(std::memory_order_seq_cst)))
                     return true;
 
                 // otherwise release lock, wait, and repeat again
